@@ -135,6 +135,24 @@ func (c *Ctx) topReturn(st *State, fr *Frame, results []Val, res *FuncResult) {
 	// reachability witness for the vacuity guard
 	res.Covers = append(res.Covers, &Query{Obl: &Obl{Fn: c.Key, Kind: "cover", Name: c.Key + "/cover"}, PC: append([]string(nil), st.pc...), Goal: "false", NDecl: len(c.decls), Trace: strings.Join(st.trace, ">"), Ctx: c})
 	if fc != nil {
+		// ghost outputs: `at return set G = expr` defines a ghost variable from the final state
+		for _, cl := range fc.Clauses {
+			if cl.Kind != "atreturnset" {
+				continue
+			}
+			g, ok := c.V.specs.Ghosts[cl.Site]
+			if !ok {
+				evalFail("at return set: unknown ghost variable %s", cl.Site)
+			}
+			env := c.envFor(st, fr, fr.entry)
+			bindResults(env, fr.fn.Signature, rts)
+			v := env.eval(cl.E)
+			want := c.V.sortOfTypeName(g.Type)
+			if v.Sort != want {
+				evalFail("at return set %s: sort %s, want %s", cl.Site, v.Sort, want)
+			}
+			st.heap["G_"+g.Name] = v
+		}
 		// at return: locals visible
 		for _, cl := range fc.Clauses {
 			if cl.Kind != "atreturn" {
